@@ -490,19 +490,33 @@ fn case_call(out: &mut Out, base: &str, src: Src, client: ClientKind, server: Se
                             Some(format!("response head arrived at {} ns, produced at {} ns", o.head_ns, h_ns))
                         } else if !head_ok && !in_window(o.end_ns, e) {
                             Some(format!("cut off at {} ns, deadline is {} ns", o.end_ns, e))
-                        // 2. after an in-time head
-                        } else if head_ok && end_ms < td && !(ok && o.msgs == want_msgs && o.end_ns == end_ms * MS) {
-                            Some(format!("call ends at {} ms, before the deadline {} ns, but gave {} messages, code {}, end {} ns", end_ms, e, o.msgs, o.code, o.end_ns))
-                        } else if head_ok && end_ms > td && ok {
-                            if flag_overrun {
-                                Some(format!(
-                                    "{}: head in time ({} ms), deadline {} ns, but the call was not cut off: {} messages, OK at {} ns",
-                                    if streaming { "F-C09b" } else { "F-C09c" }, head_ms, e, o.msgs, o.end_ns))
+                        // 2. after the head is in
+                        } else if head_ok {
+                            // what c09_head_race guarantees once the head is in: every message,
+                            // the handler's own status, at the response's own end
+                            let complete = ok && o.msgs == want_msgs && o.end_ns == end_ms * MS && o.probe.produced == n;
+                            let cut_at_deadline = cut && in_window(o.end_ns, e);
+                            // the Coq class KnownC09_head_in_time, literally:
+                            // sh_head <= sleep_tick D /\ sleep_tick D < end_tick
+                            let in_class = hm <= td && td < end_ms;
+                            let got = format!("{} of {} messages, code {} {:?}, end at {} ns", o.msgs, want_msgs, o.code, o.msg, o.end_ns);
+                            if end_ms < td {
+                                if complete { None } else { Some(format!("call ends at {} ms, before the deadline {} ns, but gave {}", end_ms, e, got)) }
+                            } else if end_ms == td {
+                                if complete || cut_at_deadline { None } else { Some(format!("call ends in the deadline's tick ({} ns) but gave {}", e, got)) }
+                            } else if cut_at_deadline {
+                                None // cut off at the deadline: what the property asks for
+                            } else if in_class && complete {
+                                if flag_overrun {
+                                    Some(format!(
+                                        "{}: head in time ({} ms), deadline {} ns, response ends at {} ms: not cut off, all {} messages delivered, OK at {} ns",
+                                        if streaming { "F-C09b" } else { "F-C09c" }, head_ms, e, end_ms, o.msgs, o.end_ns))
+                                } else {
+                                    None
+                                }
                             } else {
-                                None
+                                Some(format!("head in time ({} ms), deadline {} ns, response ends at {} ms: neither cut off at the deadline nor delivered completely: {}", head_ms, e, end_ms, got))
                             }
-                        } else if head_ok && cut && !in_window(o.end_ns, e) {
-                            Some(format!("cut off at {} ns, deadline is {} ns", o.end_ns, e))
                         } else {
                             None
                         }
@@ -510,7 +524,8 @@ fn case_call(out: &mut Out, base: &str, src: Src, client: ClientKind, server: Se
                 }
             };
             if let Some(e) = eff {
-                if head_ok && end_ms > ceil_ms(e) && ok {
+                let td = ceil_ms(e);
+                if head_ok && (head_ms as u128) <= td && td < end_ms && ok && o.msgs == want_msgs && o.end_ns == end_ms * MS {
                     out.hist("call.overrun", if streaming { "F-C09b stream not cut after in-time head" } else { "F-C09c late unary body not cut" });
                 }
             }
